@@ -36,6 +36,18 @@ def args_step(inp, q):
     a = [f"flags={_i(inp.get('flags'))}", f"sv={_i(inp.get('sv'))}", f"op={_i(inp['opbyte'])}", f"getop_ok={_i(inp.get('g_getop_ok'), 1)}",
          f"nop={_i(inp.get('oc'))}", f"ad={_i(inp.get('ad'))}", f"cs_size={cs_size}", f"cs_ff={cs_ff}", f"reduced={reduced}",
          f"base={base}", f"items={items}", f"abase={abase}", f"aitems={aitems}", f"lt={_i(inp.get('g_locktime_ok'))}", f"sq={_i(inp.get('g_sequence_ok'))}", f"pos={_i(inp.get('op_pos'))}"]
+    op = _i(inp['opbyte'])
+    if (0xac <= op <= 0xaf) or op == 0xba:
+        def bl(v): return ','.join(str(_i(x)) for x in (v or []))
+        a += [f"ecdsa={bl(inp.get('g_ecdsa_ok'))}", f"fad={bl(inp.get('g_fad_result'))}", f"schnorr_ok={_i(inp.get('g_schnorr_ok'))}", f"schnorr_err={_i(inp.get('g_schnorr_err'))}",
+              f"lows={_i(inp.get('g_lows_ok'))}", f"mock={_i(inp.get('g_mock_on'))}"]
+        mk, ms = inp.get('g_mock_key') or {}, inp.get('g_mock_sig') or {}
+        a += ["mkey=" + (_item(mk) if _i(mk.get('n')) else ''), "msig=" + (_item(ms) if _i(ms.get('n')) else '')]
+        ed = inp.get('ed') or {}
+        a.append(f"weight={_i(ed.get('m_validation_weight_left'))}")
+        for d in q.defines:
+            if d.startswith('H_MOCK='): a.append(f"mock={d.split('=')[1]}")
+            if d == 'H_SV_TAPROOT': a[1] = 'sv=2'
     cap = 0
     for d in q.defines:
         if d.startswith('VERIF_ITEM_CAP='): cap = int(d.split('=')[1])
@@ -46,4 +58,4 @@ def args_step(inp, q):
         if d.startswith('H_SV='): a[1] = f"sv={d.split('=')[1]}"
     return a
 REPLAY_STEP = {'driver': 'replay/step_replay.cpp', 'args': args_step, 'premake': ['libbitcoin.a', 'libbitcoin_deb.a'],
-               'libs': ['-Wl,--start-group', '/repo/libbitcoin_deb.a', '/repo/libbitcoin.a', '/repo/secp256k1/.libs/libsecp256k1.a', '-Wl,--end-group']}
+               'libs': ['-Wl,--start-group', '{REPO}/libbitcoin_deb.a', '{REPO}/libbitcoin.a', '{REPO}/secp256k1/.libs/libsecp256k1.a', '-Wl,--end-group']}
